@@ -145,6 +145,7 @@ Section Walk.
           cbn [ps_gwalk]. apply (IH q st (popped ++ [p]) F); [|lia].
           cbn [ps_dq map fst snd ms_dtree wgo child_pos_from] in Hnd. rewrite app_nil_r in Hnd.
           cbn [ps_dq map fst snd ms_dtree] in Hs. rewrite ps_wsize_cons in Hs. fold (ps_dq q) in Hs.
+          change (tsize (Node fn 0 [])) with 1%nat in Hs.
           constructor; try assumption.
           -- intros p' n' Hin. apply Hn. right. exact Hin.
           -- rewrite <- app_assoc. exact He.
@@ -179,7 +180,7 @@ Section Walk.
           assert (HX : forall j, (j < length kids)%nat -> ~ In (p ++ [j]) (popped ++ map fst ((p, Dir nm dl kids) :: q))).
           { intros j Hj Hin. cbn [map fst] in Hin.
             assert (Hk : In (p ++ [j]) (ps_kid_positions p 0 (length kids))).
-            { unfold ps_kid_positions. apply in_map. apply in_seq. lia. }
+            { unfold ps_kid_positions. apply in_map_iff. exists j. split; [reflexivity|]. apply in_seq. lia. }
             apply in_split in Hk. destruct Hk as (l1 & l2 & Hk). rewrite Hk in Hnd.
             replace (popped ++ p :: (map fst q ++ l1 ++ (p ++ [j]) :: l2) ++ rest)
               with ((popped ++ p :: map fst q ++ l1) ++ (p ++ [j]) :: (l2 ++ rest)) in Hnd
